@@ -256,3 +256,181 @@ impl<'a, T> Iterator for SetIter<'a, T> {
         out
     }
 }
+
+// ---------------------------------------------------------------------------------------------
+// BTreeMap<K, V> stand-in for RoutingTable::buckets (src/common/routing_table.rs): an ordered
+// association list of at most THREE entries in boxed slots kept sorted by key (a < b < c), with the
+// API subset that file uses: new, default, entry().or_default(), get, get_mut, values, iter,
+// is_empty, len, clone. (Measured: every RoutingTable-level obligation through std's BTreeMap
+// timed out at 900-2400 s or exhausted 10-16 GB.) A fourth distinct key is a VERIF-MODEL-BOUND.
+// ---------------------------------------------------------------------------------------------
+pub struct BTreeMap<K, V> {
+    pub a: Option<Box<(K, V)>>,
+    pub b: Option<Box<(K, V)>>,
+    pub c: Option<Box<(K, V)>>,
+}
+
+impl<K, V> core::fmt::Debug for BTreeMap<K, V> {
+    fn fmt(&self, f: &mut core::fmt::Formatter<'_>) -> core::fmt::Result {
+        f.write_str("BTreeMap(model)")
+    }
+}
+
+impl<K, V> Default for BTreeMap<K, V> {
+    fn default() -> Self {
+        BTreeMap { a: None, b: None, c: None }
+    }
+}
+
+impl<K: Clone, V: Clone> Clone for BTreeMap<K, V> {
+    fn clone(&self) -> Self {
+        BTreeMap { a: self.a.clone(), b: self.b.clone(), c: self.c.clone() }
+    }
+}
+
+impl<K: Ord, V> BTreeMap<K, V> {
+    pub fn new() -> Self {
+        BTreeMap { a: None, b: None, c: None }
+    }
+
+    pub fn len(&self) -> usize {
+        (if self.a.is_some() { 1 } else { 0 }) + (if self.b.is_some() { 1 } else { 0 }) + (if self.c.is_some() { 1 } else { 0 })
+    }
+
+    pub fn is_empty(&self) -> bool {
+        self.a.is_none()
+    }
+
+    fn slot_of(&self, k: &K) -> u8 {
+        // 0/1/2: the slot holding k; 3: absent. Slots are filled a, then b, then c.
+        match &self.a {
+            Some(e) if e.0 == *k => return 0,
+            _ => {}
+        }
+        match &self.b {
+            Some(e) if e.0 == *k => return 1,
+            _ => {}
+        }
+        match &self.c {
+            Some(e) if e.0 == *k => return 2,
+            _ => {}
+        }
+        3
+    }
+
+    pub fn get(&self, k: &K) -> Option<&V> {
+        match self.slot_of(k) {
+            0 => self.a.as_ref().map(|e| &e.1),
+            1 => self.b.as_ref().map(|e| &e.1),
+            2 => self.c.as_ref().map(|e| &e.1),
+            _ => None,
+        }
+    }
+
+    pub fn get_mut(&mut self, k: &K) -> Option<&mut V> {
+        match self.slot_of(k) {
+            0 => self.a.as_mut().map(|e| &mut e.1),
+            1 => self.b.as_mut().map(|e| &mut e.1),
+            2 => self.c.as_mut().map(|e| &mut e.1),
+            _ => None,
+        }
+    }
+
+    pub fn contains_key(&self, k: &K) -> bool {
+        self.slot_of(k) != 3
+    }
+
+    /// inserts (k, v) keeping a < b < c; k must be absent
+    fn insert_new(&mut self, k: K, v: V) {
+        let e = Box::new((k, v));
+        if self.a.is_none() {
+            self.a = Some(e);
+        } else if self.b.is_none() {
+            if e.0 < self.a.as_ref().unwrap().0 {
+                self.b = self.a.take();
+                self.a = Some(e);
+            } else {
+                self.b = Some(e);
+            }
+        } else if self.c.is_none() {
+            if e.0 < self.a.as_ref().unwrap().0 {
+                self.c = self.b.take();
+                self.b = self.a.take();
+                self.a = Some(e);
+            } else if e.0 < self.b.as_ref().unwrap().0 {
+                self.c = self.b.take();
+                self.b = Some(e);
+            } else {
+                self.c = Some(e);
+            }
+        } else {
+            panic!("VERIF-MODEL-BOUND: the BTreeMap stand-in holds at most 3 entries");
+        }
+    }
+
+    pub fn insert(&mut self, k: K, v: V) -> Option<V> {
+        match self.get_mut(&k) {
+            Some(slot) => Some(core::mem::replace(slot, v)),
+            None => {
+                self.insert_new(k, v);
+                None
+            }
+        }
+    }
+
+    pub fn entry(&mut self, k: K) -> BEntry<'_, K, V> {
+        BEntry { map: self, key: k }
+    }
+
+    pub fn values(&self) -> BValues<'_, K, V> {
+        BValues { a: self.a.as_deref(), b: self.b.as_deref(), c: self.c.as_deref() }
+    }
+
+    pub fn iter(&self) -> BIter<'_, K, V> {
+        BIter { a: self.a.as_deref(), b: self.b.as_deref(), c: self.c.as_deref() }
+    }
+}
+
+pub struct BEntry<'a, K, V> {
+    map: &'a mut BTreeMap<K, V>,
+    key: K,
+}
+impl<'a, K: Ord + Clone, V: Default> BEntry<'a, K, V> {
+    pub fn or_default(self) -> &'a mut V {
+        let BEntry { map, key } = self;
+        if !map.contains_key(&key) {
+            map.insert_new(key.clone(), V::default());
+        }
+        map.get_mut(&key).unwrap()
+    }
+}
+
+pub struct BValues<'a, K, V> {
+    a: Option<&'a (K, V)>,
+    b: Option<&'a (K, V)>,
+    c: Option<&'a (K, V)>,
+}
+impl<'a, K, V> Iterator for BValues<'a, K, V> {
+    type Item = &'a V;
+    fn next(&mut self) -> Option<Self::Item> {
+        let out = self.a.take();
+        self.a = self.b.take();
+        self.b = self.c.take();
+        out.map(|e| &e.1)
+    }
+}
+
+pub struct BIter<'a, K, V> {
+    a: Option<&'a (K, V)>,
+    b: Option<&'a (K, V)>,
+    c: Option<&'a (K, V)>,
+}
+impl<'a, K, V> Iterator for BIter<'a, K, V> {
+    type Item = (&'a K, &'a V);
+    fn next(&mut self) -> Option<Self::Item> {
+        let out = self.a.take();
+        self.a = self.b.take();
+        self.b = self.c.take();
+        out.map(|e| (&e.0, &e.1))
+    }
+}
